@@ -3,7 +3,7 @@ Their correspondence run is a direct oracle on the implementation's outcome clas
 operation family (modelled or not): crash / misaligned or outside reference (C01), panic / abort
 (C02), hang / stack exhaustion / absurd item counts (C03)."""
 import re
-from .props import Prop, klass, REGISTRY
+from .props import Prop, klass, spec_field, REGISTRY
 from . import gen_walk, gen_pure
 
 
@@ -90,6 +90,37 @@ class C02(Cross):
     pid = "C02"
     title = "totality"
     thm_modules = ["PeliteModel.Thm.C02", "PeliteModel.Thm.C02Arith"]
+    # C02's theorems speak about the CHECKED model (`…Chk`: panicking arithmetic / indexing at the Rust sites,
+    # Model/PeChecked.lean).  For the operation families the driver answers with that model, this property's own run
+    # ALSO applies the default model-vs-implementation agreement (kind "model"), so that `./check C02` by itself
+    # ties the checked model to the code (the direct oracle above it only classifies the implementation's outcome).
+    # Error kinds are judged by the statement of the property that owns the family, as in every pulling property.
+    pulls_others = True
+    CHECKED_FAMS = ("from_bytes", "hdr", "hdrw", "hdrw2", "r2f", "f2r", "r2v", "v2r", "slice", "slice_bytes", "read", "read_bytes",
+                    "secbytes", "to_view", "to_file", "img_to_view", "img_to_file", "byname", "byrva")
+    CHECKED_PREFIX = ("derva", "deref")
+
+    def has_checked_model(self, fam):
+        return fam in self.CHECKED_FAMS or fam.startswith(self.CHECKED_PREFIX)
+
+    def stats(self):
+        return dict(getattr(self, "judged", {}))
+
+    def judge(self, op, impl, model, spec):
+        r = Cross.judge(self, op, impl, model, spec)
+        if r:
+            # (one verdict per operation: a panic of the implementation is reported — or recognised as the known
+            # alignment finding — by the direct oracle, never a second time as a disagreement)
+            return r
+        fam = op.split(" ", 1)[0]
+        if self.has_checked_model(fam):
+            if not hasattr(self, "judged"):
+                self.judged = {"checked_model_compared": 0}
+            self.judged["checked_model_compared"] += 1
+            self.judged["compared_" + fam] = self.judged.get("compared_" + fam, 0) + 1
+            if not self.agree(op, impl, model):
+                return {"kind": "model", "text": "impl=%s checked-model=%s" % (impl[:300], model[:300]), "hyp": spec_field(spec, "hyp")}
+        return None
 
     def bad(self, op, impl):
         k = klass(impl)
